@@ -380,6 +380,10 @@ def run(ctx):
     ctx.guarded(r, r_contains)
     r = ctx.rule("R5", "paired guards agree: sin / cos early exits (whole period with >=), mix's single-bit-pattern tests, atan2's branch cut", 5)
     ctx.guarded(r, r5_sibling_guards)
+    from .. import round8 as R8_
+
+    r = ctx.rule("R5r", "reciprocal: [1/upper, 1/lower] only when zero is strictly outside the box on either side", 2)
+    ctx.guarded(r, R8_.r_recip_pole)
     from .. import wgslrules as WR
 
     r = ctx.rule("R6", "the GPU (WGSL) interval operations are enclosures: bound selection, corner products / quotients, domain guards, choices, guard predicates", 29)
